@@ -69,6 +69,14 @@ class _Closure:
     fi: FunctionInfo
 
 
+class _Break(Exception):
+    pass
+
+
+class _Continue(Exception):
+    pass
+
+
 class SymEval:
     def __init__(self, prog: Program, *, max_steps: int = 20000) -> None:
         self.prog = prog
@@ -128,7 +136,27 @@ class SymEval:
             elif isinstance(st, ast.For):
                 for x in self._iter(self.ev(st.iter, env, fi)):
                     self._bind(st.target, x, env)
-                    self._block(st.body, env, fi)
+                    try:
+                        self._block(st.body, env, fi)
+                    except _Break:
+                        break
+                    except _Continue:
+                        continue
+            elif isinstance(st, ast.While):
+                while self.truth(self.ev(st.test, env, fi)):
+                    self.steps += 1
+                    if self.steps > self.max_steps:
+                        raise Unsupported("step budget exhausted")
+                    try:
+                        self._block(st.body, env, fi)
+                    except _Break:
+                        break
+                    except _Continue:
+                        continue
+            elif isinstance(st, ast.Break):
+                raise _Break
+            elif isinstance(st, ast.Continue):
+                raise _Continue
             elif isinstance(st, ast.FunctionDef):
                 env[st.name] = _Closure(st, env, fi)
             elif isinstance(st, ast.Pass):
@@ -419,7 +447,10 @@ class SymEval:
                     return float(v)
                 raise Unsupported("float() of a node")
             if f.id == "len" and len(c.args) == 1:
-                return len(self._iter(self.ev(c.args[0], env, fi)))
+                v = self.ev(c.args[0], env, fi)
+                if isinstance(v, str):
+                    return len(v)
+                return len(self._iter(v))
             if f.id == "type" and len(c.args) == 1:
                 v = self.ev(c.args[0], env, fi)
                 if isinstance(v, Sym):
